@@ -362,6 +362,13 @@ def check_tables(case):
                 table = {}
                 for k, start, c in rows:
                     table.setdefault(k, {})[start] = c
+                strays = {start for row in table.values() for start in row
+                          } - set(offsets)
+                if strays:
+                    raise Violation(
+                        'crossing-rows-without-interval-offset:' + which,
+                        'intervals {} have crossing rows but no offset '
+                        'row'.format(sorted(strays)[:4]))
                 if any(len(row) < 2 for row in table.values()):
                     raise Violation(
                         'table-level-crossed-by-single-interval:' + which,
